@@ -83,6 +83,16 @@ def real_load(path, name):
         return [], None, "%s: %s" % (type(ex).__name__, ex)
 
 
+def abstract_view_cs(cd):
+    """what harness/umlsynth.abstract_cs computes (the diagram as LanguageCsharp renders it), as bytes (the shape of ub_adaptor_cs's reply)"""
+    from . import umlsynth
+    from kojen import LanguageCsharp
+    D = umlsynth.abstract_cs(cd, LanguageCsharp.LanguageCsharp())
+    def conv(x):
+        return [conv(y) for y in x] if isinstance(x, list) else e(x)
+    return conv(D)
+
+
 def abstract_view(cd):
     """what harness/umlsynth.abstract computes, as bytes (the shape of ub_adaptor's reply)"""
     from . import umlsynth
@@ -103,8 +113,16 @@ PLAIN = set(range(32, 127)) - set(b"=<>;\\\"()'")
 T1, T2, T3, T4 = b"\r\n\t", b"\r\n\t\t", b"\r\n\t\t\t", b"\r\n\t\t\t\t"
 
 
+NAME_CHARS = set(range(32, 127)) - set(b'"\\\';{}')
+
+
 def plain_text(s, what, allow_empty=True):
     b = s.encode("utf-8") if isinstance(s, str) else s
+    if what in ("operation name", "attribute name", "parameter name", "literal", "association name"):
+        # a member's NAME is read as it stands between its quotes (K-C19-7 repaired): = < > ( ) , : are ordinary characters
+        if any(c not in NAME_CHARS for c in b) or b != b.strip() or (not b and not allow_empty):
+            raise Unencodable("%s %r cannot stand in a blob header" % (what, s))
+        return b
     value = what in ("default", "comment", "multiplicity", "modifier", "typeModifier", "initialValue_string", "defaultValue_string")
     if any(c not in PLAIN for c in b) or b != b.strip() or b"," in b and not (value and b.replace(b",", b"").strip()) or (not b and not allow_empty):
         raise Unencodable("%s %r is not plain text" % (what, s))
